@@ -155,7 +155,7 @@ def ctx_view_for(spec: Spec, i: int, context: Optional[dict]):
         context = {}
     if context.get('_noview'):
         return ()
-    if spec.types[i] == 'TF':
+    if spec.types[i] in ('TF', 'TH'):
         keep = f'k{spec.labels[i] % 2}'
         context = {k: v for k, v in context.items() if k == keep or k.startswith('_')}
     elif spec.types[i] == 'TG':
